@@ -137,6 +137,32 @@ Definition rel_prune (prev cur : list (string * (Z * Z))) (rel : list (string * 
                    | _, _ => false
                    end) rel.
 
+Definition sync_enabled (s : spec) : bool :=
+  match s_hooks s with
+  | Some h => match new_hook (h_sync h) with Ok b => b | _ => false end
+  | None => false
+  end.
+
+(* The instance of another name that the event left alone (same incarnation) is still
+   served: every parent object was modified after the event, and an instance with a
+   sync hook must have called it for its parents within the observation window. *)
+Definition others_still_served (n : string) (specs : list spec) (prev cur : list (string * (Z * Z)))
+           (act : list (string * (Z * (Z * Z)))) : bool :=
+  forallb (fun p =>
+             String.eqb (fst p) n ||
+             match zfind (fst p) prev with
+             | Some (_, inc0) =>
+                 negb (Z.eqb inc0 (snd (snd p))) ||
+                 match spec_by_id (fst (snd p)) specs with
+                 | Some sp =>
+                     negb (sync_enabled sp) ||
+                     existsb (fun a => String.eqb (fst a) (fst p) && Z.eqb (fst (snd a)) (fst (snd p)) &&
+                                       zpos (fst (snd (snd a)))) act
+                 | None => true
+                 end
+             | None => true
+             end) cur.
+
 Definition prop_step (fl : flavor) (v : iview) (e : event) (o : C20_obs) : option string * iview :=
   let specs := match e with Reconcile _ (LFound s _) => s :: v_specs v | _ => v_specs v end in
   let rel0 := rel_prune (v_prev v) (o_insts o) (v_related v) in
@@ -194,6 +220,12 @@ Definition prop_step (fl : flavor) (v : iview) (e : event) (o : C20_obs) : optio
          | Reconcile n _ => others_untouched n prev cur
          | Related _ _ => others_untouched "" prev cur
          end);
+      (* a stop, delete or restart of one hosted controller never affects another's instance *)
+      ("other-controller-silenced",
+         match e with
+         | Reconcile n _ => others_still_served n specs prev cur (o_active o)
+         | Related _ _ => true
+         end);
       ("bad-config-running",
          match e with
          | Reconcile n (LFound s crd) =>
@@ -240,12 +272,6 @@ Definition outcome_eqb (a b : outcome) : bool :=
 
 Definition started (n : string) (acts : list action) : bool :=
   existsb (fun a => match a with Started n' _ => String.eqb n n' | _ => false end) acts.
-
-Definition sync_enabled (s : spec) : bool :=
-  match s_hooks s with
-  | Some h => match new_hook (h_sync h) with Ok b => b | _ => false end
-  | None => false
-  end.
 
 Definition model_step (fl : flavor) (ms : state) (prev : list (string * (Z * Z))) (e : event) (o : C20_obs) : option string * state :=
   let '(ms', out, acts) := step fl ms e in
